@@ -30,13 +30,16 @@ def project(strings, idx, namespaces):
 
     en = loc(strings, "e")
     fr = loc(list(reversed(strings)), "f")
+    # a third locale sharing every string with the second one (same set, different positions): tables are per locale
+    rot = strings[1:] + strings[:1]
+    de = loc(rot, "f")
     if namespaces:
         small = {"t": "map", "e": [["z", S(strings[0])], ["y", S(["n", "2"])]]}
-        files = [["en/n1", en], ["fr/n1", fr], ["en/n2", small], ["fr/n2", small]]
-        cfg = {"default": "en", "locales": ["en", "fr"], "namespaces": ["n1", "n2"]}
+        files = [["en/n1", en], ["fr/n1", fr], ["de/n1", de], ["en/n2", small], ["fr/n2", small], ["de/n2", small]]
+        cfg = {"default": "en", "locales": ["en", "fr", "de"], "namespaces": ["n1", "n2"]}
     else:
-        files = [["en", en], ["fr", fr]]
-        cfg = {"default": "en", "locales": ["en", "fr"]}
+        files = [["en", en], ["fr", fr], ["de", de]]
+        cfg = {"default": "en", "locales": ["en", "fr", "de"]}
     return {"family": "strings", "abs": {"names": names, "values": strings, "namespaces": namespaces}, "cfg": cfg, "files": files}
 
 
